@@ -40,8 +40,7 @@ def _get_seq_with_type(seq, bufsize=None):
     elif ct.is_fill_request_seq(seq):
         seq_type = "fill_request"
         if not ct.is_fill_request_el(seq):
-            seq = fill_request_seq.FillRequestSeq(
-                *seq, bufsize=bufsize,
+            kwargs = dict(
                 # if we have a FillRequest element inside,
                 # it decides itself when to reset.
                 reset=False,
@@ -50,6 +49,11 @@ def _get_seq_with_type(seq, bufsize=None):
                 # without a buffer
                 buffer_input=True
             )
+            if bufsize is not None:
+                # None (the whole flow for Split, or no bufsize
+                # from Zip) is not a size of a FillRequest.
+                kwargs["bufsize"] = bufsize
+            seq = fill_request_seq.FillRequestSeq(*seq, **kwargs)
     # Source is not checked,
     # because it must be Source explicitly.
     else:
